@@ -39,8 +39,10 @@ EXPLANATION = ('PARTIAL. Statement level (added): c36_stmt_exact / c36_body_exac
                'the statement spec, the lowering model (values as SSA registers, then stores) and c36_stmt_exact; its CFG is not part '
                'of the structural decompile comparison (differential execution: swaps, rotations, fib updates, repeated targets). '
                'Augmented assignment is covered for every operator the lowering accepts (x op= e is lowered as x op e); while-else / '
-               'for-else are rejected by the front-end with a diagnostic and are not in the statement AST; function calls are NOT in '
-               'the statement theorem (differential execution only). True division a / b on ints is part of the expression language '
+               'for-else are rejected by the front-end with a diagnostic and are not in the statement AST. Function calls x = f(e1..en) to '
+               'functions of the module (also recursive) are in the statement spec (function environment), the code semantics '
+               '(function table, R_call) and the theorems (c36_stmt_exact, c36_module_exact); calls nested inside expressions, '
+               'conditions and loop bounds, and imported external functions are differential-execution validated only. True division a / b on ints is part of the expression language '
                '(no integer value; rejected by the lowering once the front-end diagnoses it: c36_int_truediv_rejected). '
                'Expression level: theorems (unbounded in values) cover: lowering of integer expressions over + - * // '
                '(as the current table/sequence lowers them), comparisons and short-circuit and/or, and the block skeleton '
@@ -384,7 +386,7 @@ def compile_quiet(src):
         sys.stdout = old
 
 
-def ir_outcome(m, fname, args, fuel=20000):
+def ir_outcome(m, fname, args, fuel=120000):
     """irsem_py outcome rendered as the value Coq's `toval (outcome Z)` has"""
     import irsem_py
     r = irsem_py.run_main(m, fname, list(args), fuel)
@@ -427,6 +429,7 @@ class _Instrument(ast.NodeTransformer):
         return node
     visit_While = _loop
     visit_For = _loop
+    visit_FunctionDef = _loop          # calls count towards the step budget
 
 
 def cpython_outcome(src, fname, args, budget=4000):
@@ -447,7 +450,7 @@ def cpython_outcome(src, fname, args, budget=4000):
         return ('reject', str(ex))
     except ZeroDivisionError:
         return ('reject', 'zerodiv')
-    except (ValueError, UnboundLocalError, OverflowError) as ex:
+    except (ValueError, UnboundLocalError, OverflowError, RecursionError) as ex:
         return ('reject', type(ex).__name__)
     if not isinstance(v, int) or isinstance(v, bool) or not in64(v):
         return ('reject', 'result type/range')
@@ -489,6 +492,10 @@ def expr_cases(ctx, n_expr, n_cond, n_env):
 
 # ------------------------------------------------------------------ statements: model CFG vs decompiled python_to_ir output (tie H)
 SVARS = 4
+# functions of the module a generated function may call: (name, number of parameters), in definition order
+TIE_FUNS = [('g0', 1), ('g1', 2)]
+TIE_DEFS = ('def g0(p: int) -> int:\n    return p + 1\n\n'
+            'def g1(p: int, q: int) -> int:\n    if p < q:\n        return q - p\n    return g0(p) * q\n\n')
 
 
 def sgen_block(rng, depth, in_loop, n=None):
@@ -512,7 +519,10 @@ def sgen_stmt(rng, depth, in_loop):
         return ('if', gen_cond(rng, 1, ops), [('ret', gen_expr(rng, 1, ops))], [])
     if r < 0.66:
         return ('pass',)
-    if r < 0.8:
+    if r < 0.74:
+        fi = rng.randrange(len(TIE_FUNS))
+        return ('call', rng.randrange(SVARS), fi, [gen_expr(rng, 1, ops) for _ in range(TIE_FUNS[fi][1])])
+    if r < 0.84:
         return ('aug', rng.randrange(SVARS), rng.choice(ops), gen_expr(rng, 1, ops))
     return ('assign', rng.randrange(SVARS), gen_expr(rng, 2, ops))
 
@@ -522,6 +532,8 @@ def s_src(s, ind):
     k = s[0]
     if k in ('pass', 'break', 'continue'):
         return [p + k]
+    if k == 'call':
+        return [p + 'x%d = %s(%s)' % (s[1], TIE_FUNS[s[2]][0], ', '.join(e_src(a) for a in s[3]))]
     if k == 'assign':
         return [p + 'x%d = %s' % (s[1], e_src(s[2]))]
     if k == 'aug':
@@ -553,6 +565,8 @@ def s_coq(s):
         return 'PSBreak'
     if k == 'continue':
         return 'PSContinue'
+    if k == 'call':
+        return '(PSCall %d %d [%s])' % (s[1], s[2], '; '.join(e_coq(a) for a in s[3]))
     if k == 'assign':
         return '(PSAssign %d %s)' % (s[1], e_coq(s[2]))
     if k == 'aug':
@@ -586,7 +600,7 @@ def stmt_cases(ctx, n):
     while len(cases) < n and tries < 4 * n:
         tries += 1
         body = sgen_block(ctx.rng, 2, False, ctx.rng.choice([1, 2, 3])) + [('ret', gen_expr(ctx.rng, 1, ['Add', 'Sub', 'Mult']))]
-        src = 'def f(%s) -> int:\n%s\n' % (', '.join('x%d: int' % i for i in range(SVARS)), '\n'.join(b_src(body, 4)))
+        src = TIE_DEFS + 'def f(%s) -> int:\n%s\n' % (', '.join('x%d: int' % i for i in range(SVARS)), '\n'.join(b_src(body, 4)))
         m, err = compile_quiet(src)
         if err == 'diag':
             val = Diag
@@ -595,7 +609,8 @@ def stmt_cases(ctx, n):
         else:
             f = [x for x in m.functions if x.name == 'f'][0]
             try:
-                val = stmt_decomp.decompile(f, var_index, False, lambda d: 2 * d + 1)
+                val = stmt_decomp.decompile(f, var_index, False, lambda d: 2 * d + 1,
+                                            fun_index={n: i for i, (n, _) in enumerate(TIE_FUNS)})
             except stmt_decomp.Unexpected as ex:
                 if str(ex) == 'too large':
                     continue
@@ -623,8 +638,13 @@ class FGen:
         r = self.rng.random()
         if r < 0.45:
             return self.rng.choice(LOCALS + self.loopvars)
-        if r < 0.8:
+        if r < 0.75:
             return self.rng.choice(ARGS)
+        if r < 0.83:
+            self.features.add('rec-call')
+            if self.rng.random() < 0.3:
+                return 'gcd(%s, %s)' % (self.rng.choice(ARGS + LOCALS), self.rng.choice(ARGS + LOCALS))
+            return self.rng.choice(REC_CALLS + (['is_even(n)', 'is_odd(x)'] if MUTUAL[0] else []))
         return str(self.rng.choice([0, 1, 2, 3, 5, 7, 10, 100, 2 ** 31, 2 ** 40]))
 
     def expr(self, depth):
@@ -668,8 +688,11 @@ class FGen:
             k = self.rng.random()
             if k < 0.4:
                 rg = 'range(%d)' % self.rng.randrange(0, 6)
-            elif k < 0.7:
+            elif k < 0.6:
                 rg = 'range(n)'
+            elif k < 0.7:
+                self.features.add('rec-call')
+                rg = 'range(fib(n))'
             else:
                 rg = 'range(%s, %s)' % (self.rng.choice(['0', '1', 'n', '2']), self.rng.choice(['n', '4', '(n + 2)']))
             out = [p + 'for %s in %s:' % (v, rg)]
@@ -738,7 +761,16 @@ class FGen:
         return [p + '%s = %s' % (self.rng.choice(LOCALS), self.expr(3))]
 
 
-HELPER = 'def h(p: int, q: int) -> int:\n    if p < q:\n        return q - p\n    return p - q + 1\n\n'
+HELPER = ('def h(p: int, q: int) -> int:\n    if p < q:\n        return q - p\n    return p - q + 1\n\n'
+          'def fact(m: int) -> int:\n    if m <= 1:\n        return 1\n    return m * fact(m - 1)\n\n'
+          'def fib(m: int) -> int:\n    if m < 2:\n        return m\n    return fib(m - 1) + fib(m - 2)\n\n'
+          'def gcd(p: int, q: int) -> int:\n    if q == 0:\n        return p\n    return gcd(q, p - (p // q) * q)\n\n'
+          'def ack(m: int, k: int) -> int:\n    if k < 0 or m < 0:\n        return 0\n    if m == 0:\n        return k + 1\n'
+          '    if k == 0:\n        return ack(m - 1, 1)\n    return ack(m - 1, ack(m, k - 1))\n\n')
+REC_CALLS = ['fact(n)', 'fib(n)', 'ack(1, n)', 'ack(2, 2)', 'fib(fact(3))']
+HELPER_MUTUAL = ('def is_even(m: int) -> int:\n    if m <= 0:\n        return 1\n    return is_odd(m - 1)\n\n'
+                 'def is_odd(m: int) -> int:\n    if m <= 0:\n        return 0\n    return is_even(m - 1)\n\n')
+MUTUAL = [False]     # set by run() from the forward-call witness
 
 
 def gen_function(rng):
@@ -752,7 +784,7 @@ def gen_function(rng):
         body.append('    return %s + i1' % g.expr(2))
     else:
         body.append('    return %s' % g.expr(2))
-    src = HELPER + 'def f(a: int, b: int, c: int, n: int) -> int:\n' + '\n'.join(body) + '\n'
+    src = HELPER + (HELPER_MUTUAL if MUTUAL[0] else '') + 'def f(a: int, b: int, c: int, n: int) -> int:\n' + '\n'.join(body) + '\n'
     return src, sorted(g.features)
 
 
@@ -821,6 +853,9 @@ WITNESSES = [
      'args': [7, 0]},
     {'id': 'tuple-assign-swap', 'src': 'def f(a: int, b: int) -> int:\n    a, b = b, a\n    return a - b\n', 'args': [7, 2]},
     # `/` on ints has no int result: the repaired front-end rejects it (diagnostic = pass), the source as found returns 3
+    {'id': 'forward-call', 'fname': 'is_even', 'args': [10],
+     'src': 'def is_even(m: int) -> int:\n    if m <= 0:\n        return 1\n    return is_odd(m - 1)\n\n'
+            'def is_odd(m: int) -> int:\n    if m <= 0:\n        return 0\n    return is_even(m - 1)\n'},
     {'id': 'int-true-division', 'src': 'def f(a: int, b: int) -> int:\n    return a / b\n', 'args': [7, 2], 'diag_ok': True},
     {'id': 'int-true-division-aug', 'src': 'def f(a: int, b: int) -> int:\n    a /= b\n    return a\n', 'args': [7, 2],
      'diag_ok': True},
@@ -834,11 +869,12 @@ def run_witness(w):
     """(expected, actual) with CPython as expected; no domain filter needed for these"""
     ns = {}
     exec(w['src'], ns)
-    exp = ns['f'](*w['args'])
+    fname = w.get('fname', 'f')
+    exp = ns[fname](*w['args'])
     m, err = compile_quiet(w['src'])
     if err:
         return exp, err
-    act = ir_outcome(m, 'f', w['args'])
+    act = ir_outcome(m, fname, w['args'])
     return exp, (act.v if isinstance(act, OkV) else act)
 
 
@@ -901,6 +937,7 @@ def run(ctx):
                            'args': w['args'], 'expected': repr(exp), 'actual': repr(act),
                            'how_to_replay': 'python tools/props/c36.py replay <this file>'})
     ctx.cov['stages']['witnesses'] = wres
+    MUTUAL[0] = wres.get('forward-call') == 'passes'
 
     # ---- differential search: CPython vs python_to_ir + irsem_py
     deep = thorough or bool(ctx.failed_stages)
@@ -949,7 +986,8 @@ MANIFEST = {
             '(c36_for_range). For the source as found the same statements are refuted with witnesses (-7 // 2 = -3; '
             'continue / nested control flow in a for body leaves the phi without an input; loop variable = n after the '
             'loop) and proved on the complement (c36_expr_exact_outside, c36_for_range_orig_straight). (4) STATEMENTS: for every '
-            'statement tree over assignment, tuple assignment, augmented assignment, if/elif/else, while, for-range, break, continue, return, pass and '
+            'statement tree over assignment, tuple assignment, augmented assignment, calls x = f(e1..en) of module functions (recursion allowed; '
+            'c36_module_exact: a module of functions calling each other returns what CPython returns), if/elif/else, while, for-range, break, continue, return, pass and '
             'every environment, if CPython\'s big-step execution (relational spec PyStmtSpec: terminating, exception-free, within '
             '64 bits) ends in return v, the code the gen_statement model emits returns v (c36_stmt_exact, c36_body_exact; rule '
             'induction, continuation-passing simulation, the expression/condition theorems as leaves). LIMIT of (4): the emitted '
